@@ -60,7 +60,7 @@ func TestMain(m *testing.M) {
 	if rp := ev.LoadReplay(); rp != nil {
 		ev.RunReplay(rp, func(c Case) *ev.Failure { return runCase(c, nil) })
 	}
-	rec = ev.New("C04", "histories of template / undecodable-template / data messages over 2 observation domains x 2 template ids x 3 decoding modes x tcp/udp: exhaustive over a 31-symbol alphabet (including 61 s passing on tcp sessions configured with a 60 s template TTL, which must not expire anything) and over a second 19-symbol alphabet (re-announcements differing only in an unknown element's declared length, field counts far beyond the specifiers present, a known octet-array element declared with a fixed length in the other domain) to depth 3 (quick) / 4 (thorough), rapid histories up to length 60 with random templates beyond; non-trivial = a data message is judged after a replacement or an invalidation of its template, or the same id is live in both domains; distinct by hash of the history",
+	rec = ev.New("C04", "histories of template / undecodable-template / data messages over 2 observation domains x 2 template ids x 3 decoding modes x tcp/udp: exhaustive over a 31-symbol alphabet (including 61 s passing on tcp sessions configured with a 60 s template TTL, which must not expire anything) and over a second 22-symbol alphabet (re-announcements differing only in an unknown element's declared length, field counts far beyond the specifiers present, a known octet-array element declared with a fixed length in the other domain) to depth 3 (quick) / 4 (thorough), rapid histories up to length 60 with random templates beyond; non-trivial = a data message is judged after a replacement or an invalidation of its template, or the same id is live in both domains; distinct by hash of the history",
 		"reference codec refipfix and an independent map model of the template table", "verif hooks VerifDecodePacket / VerifTemplates")
 	code := m.Run()
 	rec.Write()
@@ -78,6 +78,10 @@ func (s Step) packet() []byte {
 			m = m[:20+s.Cut]
 		}
 		return gen.FixLengths(append([]byte(nil), m...))
+	case "badtype":
+		t := gen.Wire(s.ID, s.Fields)
+		t.Fields = append(t.Fields, ref.Field{ID: 154, Ent: 0, Len: 8}) // flowStartMicroseconds
+		return ref.TemplateMessage(h, t)
 	case "badcount":
 		m := ref.TemplateMessage(h, gen.Wire(s.ID, s.Fields))
 		m[22], m[23] = byte(s.Count>>8), byte(s.Count)
@@ -176,6 +180,15 @@ func runCase(c Case, st *Stats) *ev.Failure {
 				}
 				delete(model, key)
 			}
+		case "badtype":
+			if dr.Err == nil {
+				return ev.Failf("step %d: template naming flowStartMicroseconds (a data type the library cannot decode) accepted", i)
+			}
+			if _, had := model[key]; had {
+				invalidated[key] = true
+			}
+			delete(model, key)
+			delete(unjudged, key)
 		case "badcount":
 			if dr.Err == nil {
 				return ev.Failf("step %d: template record announcing %d fields but carrying %d accepted", i, s.Count, len(s.Fields))
@@ -362,6 +375,9 @@ func TestC04(t *testing.T) {
 	unk5.Len, unk5.WireLen = 5, 5
 	unkV := unk
 	unkV.Len, unkV.WireLen = ref.VarLen, ref.VarLen
+	unkE := unk
+	unkE.Ent = 4242
+	UE := []gen.TField{A[0], unkE, A[1]}
 	U5 := []gen.TField{A[0], unk5, A[1]}
 	UV := []gen.TField{A[0], unkV, A[1]}
 	recU5 := [][]ref.Value{{{B: []byte{10, 0, 0, 4}}, {B: []byte{1, 2, 3, 4, 5}}, {U: 17}}}
@@ -387,6 +403,11 @@ func TestC04(t *testing.T) {
 		// library does not implement: they are templates without fields), for a live id and for id 2, in
 		// the other domain
 		{Kind: "tpl", Domain: 2, ID: 256}, {Kind: "tpl", Domain: 2, ID: 2},
+		// the same unknown element id and length under another enterprise number (a replacement that
+		// differs in nothing else), and a re-definition naming a registry element whose data type the
+		// library cannot decode (refused in every mode; the older template goes)
+		{Kind: "tpl", Domain: 1, ID: 256, Fields: UE}, {Kind: "data", Domain: 1, ID: 256, Fields: UE, Recs: recU},
+		{Kind: "badtype", Domain: 1, ID: 256, Fields: A},
 	}
 	depth := 3
 	if rec.Thorough() {
@@ -522,6 +543,9 @@ func genCase(t *rapid.T) Case {
 				}
 			}
 			tpls = append(tpls, s.Fields)
+		case kind == 4 && rapid.IntRange(0, 3).Draw(t, "badtype") == 0:
+			s.Kind = "badtype"
+			s.Fields = tpls[rapid.IntRange(0, len(tpls)-1).Draw(t, "which")]
 		case kind == 4 && rapid.Bool().Draw(t, "badcount"):
 			s.Kind = "badcount"
 			s.Fields = tpls[rapid.IntRange(0, len(tpls)-1).Draw(t, "which")]
